@@ -65,9 +65,10 @@ def evaluate(ctx, triples, lines, nofault_of):
 def check(ctx, pid=PID, props=PROPS, only_nofault=False):
     ctx.log("proof step")
     pr = ctx.proof_step(props)
-    if pid == "C07":
-        # part 3: the container theorems (B-tree, hash, AVL developments) read at an arbitrary oracle
-        extra = ctx.proof_step("Properties_C07_containers")
+    # further parts: Properties_C07_containers.v (B-tree/hash/AVL theorems at an arbitrary oracle),
+    # Properties_C08_hash.v / Properties_C08_btree.v (allocation event logs of the instrumented container models)
+    for mod in sorted(f[:-2] for f in os.listdir(vlib.COQ) if f.startswith(props + "_") and f.endswith(".v")):
+        extra = ctx.proof_step(mod)
         pr = {"file": pr["file"] + " + " + extra["file"], "theorems": pr["theorems"] + extra["theorems"],
               "obligations": pr["obligations"] + extra["obligations"], "discharged": pr["discharged"] + extra["discharged"],
               "ok": pr["ok"] and extra["ok"], "axioms": sorted(set(pr["axioms"] + extra["axioms"])),
